@@ -828,6 +828,46 @@ func ruleC17_5(c *Ctx) {
 	if !spelled["on"] || !spelled["aesgcm"] {
 		probs = append(probs, fmt.Sprintf("the documented values encrypt=on and encrypt=aesgcm are not both recognised (compared with: %v); with the missing spelling the cache silently writes plaintext", sortedKeys(spelled)))
 	}
+	// each documented spelling leads to the option: with the encrypt value fixed to it, no success return of the DSN
+	// reader is reachable without the call of the encryption option
+	for _, spelling := range []string{"on", "aesgcm"} {
+		if !spelled[spelling] {
+			continue
+		}
+		eval := func(v ssa.Value) (bool, bool) { return evalStringCond(v, spelling, isEncryptParam, 0) }
+		pr := pruneBy(dsn, eval)
+		res := c.An.MustPass(pr, func(in ssa.Instruction) bool {
+			// a return that may report success: its error is nil or whatever the opener called last returns, not an
+			// error made here (fmt.Errorf, errors.New, a package-level error value)
+			r, ok := in.(*ssa.Return)
+			if !ok || len(r.Results) != 2 {
+				return false
+			}
+			ev := c.An.RetVal(r, 1)
+			if isNilConst(ev) {
+				return true
+			}
+			switch x := ev.(type) {
+			case *ssa.Call:
+				return !c.constructsError(x)
+			case *ssa.Extract:
+				return true
+			case *ssa.MakeInterface:
+				return false
+			case *ssa.UnOp:
+				if _, isG := x.X.(*ssa.Global); isG {
+					return false
+				}
+			}
+			return true
+		}, func(in ssa.Instruction) bool {
+			cc := callOf(in)
+			return cc != nil && cc.StaticCallee() == opt.Parent()
+		})
+		if res.Targets > 0 && !res.OK {
+			probs = append(probs, fmt.Sprintf("with encrypt=%s a cache can be opened (%s) without the encryption option having been applied: the value is accepted but means no encryption", spelling, c.P.InstrPos(res.Missing[0])))
+		}
+	}
 	if !cs["FSCACHE_ENCRYPT_KEY"] {
 		probs = append(probs, "environment key FSCACHE_ENCRYPT_KEY not consulted")
 	}
@@ -921,4 +961,91 @@ func isOptionApply(cc *ssa.CallCommon) bool {
 	}
 	_, isStruct := pt.Elem().Underlying().(*types.Struct)
 	return isStruct
+}
+
+// evalStringCond evaluates a branch condition for a fixed value `val` of the string recognised by isVar: comparisons
+// with constants, lookups in constant tables keyed by it, negations. Anything else is unknown.
+func evalStringCond(v ssa.Value, val string, isVar func(ssa.Value) bool, depth int) (bool, bool) {
+	if depth > 6 {
+		return false, false
+	}
+	switch x := v.(type) {
+	case *ssa.UnOp:
+		if x.Op == token.NOT {
+			b, ok := evalStringCond(x.X, val, isVar, depth+1)
+			return !b, ok
+		}
+	case *ssa.BinOp:
+		if x.Op != token.EQL && x.Op != token.NEQ {
+			return false, false
+		}
+		for _, side := range [][2]ssa.Value{{x.X, x.Y}, {x.Y, x.X}} {
+			if k, ok := constStr(side[1]); ok && isVar(side[0]) {
+				return (k == val) == (x.Op == token.EQL), true
+			}
+		}
+	case *ssa.Extract:
+		cm, lk := constMapLookup(x.Tuple)
+		if cm == nil || !lk.CommaOk || !isVar(lk.Index) {
+			return false, false
+		}
+		vals, present := cm.vals[constant.MakeString(val).ExactString()]
+		if x.Index == 1 {
+			return present, true
+		}
+		if !present {
+			vals = cm.zero
+		}
+		if len(vals) == 1 && vals[0] != nil && vals[0].Kind() == constant.Bool {
+			return constant.BoolVal(vals[0]), true
+		}
+	case *ssa.Lookup:
+		cm, lk := constMapLookup(x)
+		if cm == nil || lk.CommaOk || !isVar(lk.Index) {
+			return false, false
+		}
+		vals, present := cm.vals[constant.MakeString(val).ExactString()]
+		if !present {
+			vals = cm.zero
+		}
+		if len(vals) == 1 && vals[0] != nil && vals[0].Kind() == constant.Bool {
+			return constant.BoolVal(vals[0]), true
+		}
+	}
+	return false, false
+}
+
+// pruneBy computes the blocks and edges of fn that stay reachable when every branch whose condition eval decides is
+// taken accordingly.
+func pruneBy(fn *ssa.Function, eval func(cond ssa.Value) (bool, bool)) *Pruned {
+	pr := &Pruned{Fn: fn, LiveBlock: map[int]bool{}, liveEdge: map[[2]int]bool{}, Used: map[string]bool{}}
+	if len(fn.Blocks) == 0 {
+		return pr
+	}
+	work := []*ssa.BasicBlock{fn.Blocks[0]}
+	pr.LiveBlock[0] = true
+	for len(work) > 0 {
+		b := work[len(work)-1]
+		work = work[:len(work)-1]
+		succs := b.Succs
+		if len(b.Instrs) > 0 {
+			if iff, ok := b.Instrs[len(b.Instrs)-1].(*ssa.If); ok {
+				if truth, known := eval(iff.Cond); known {
+					if truth {
+						succs = b.Succs[:1]
+					} else {
+						succs = b.Succs[1:2]
+					}
+				}
+			}
+		}
+		for _, s := range succs {
+			pr.liveEdge[[2]int{b.Index, s.Index}] = true
+			if !pr.LiveBlock[s.Index] {
+				pr.LiveBlock[s.Index] = true
+				work = append(work, s)
+			}
+		}
+	}
+	return pr
 }
